@@ -251,6 +251,9 @@ def main():
     cases.append(segment_case(ck, None, 400, 5, -1, 1, 'default-n'))
     cases.append(segment_case(ck, 6, None, 5, -2, 2, 'default-x', njobs=2))
     cases.append(segment_case(ck, 7, 2, 9, -2, 4, 'four-runs', njobs=4))
+    # the fixed seed 0 (run i works with seed 0 + i, like any other seed), for several job counts
+    for nj in (1, 3):
+        cases.append(segment_case(ck, 6, 2, 0, -2, 3, 'seed-zero', njobs=nj))
     for _ in range(600 if ck.thorough else 80):
         cases.append(yield_case(rng))
     for _ in range(600 if ck.thorough else 80):
